@@ -568,24 +568,24 @@ func (c Cell) vEdgeIsClosest(p Point, uHi bool) bool {
 	return p.Dot(dir0) > 0 && p.Dot(dir1) < 0
 }
 
-// edgeDistance reports the distance from a Point P to a given Cell edge. The point
-// P is given by its dot product, and the uv edge by its normal in the
-// given coordinate value.
-func edgeDistance(ij, uv float64) s1.ChordAngle {
+// edgeDistance reports the distance from a Point P (in the (u,v,w) coordinates
+// of the cell's face) to the Cell edge that lies in the plane through the
+// origin with (unnormalized) normal n, assuming that the closest point of the
+// edge's great circle to P lies on the edge.
+func edgeDistance(p Point, n r3.Vector) s1.ChordAngle {
 	// Let P by the target point and let R be the closest point on the given
 	// edge AB.  The desired distance PR can be expressed as PR^2 = PQ^2 + QR^2
 	// where Q is the point P projected onto the plane through the great circle
-	// through AB.  We can compute the distance PQ^2 perpendicular to the plane
-	// from "dirIJ" (the dot product of the target point P with the edge
-	// normal) and the squared length the edge normal (1 + uv**2).
-	pq2 := (ij * ij) / (1 + uv*uv)
-
-	// We can compute the distance QR as (1 - OQ) where O is the sphere origin,
-	// and we can compute OQ^2 = 1 - PQ^2 using the Pythagorean theorem.
-	// (This calculation loses accuracy as angle POQ approaches Pi/2.)
-	// (pq2 can exceed 1 by rounding when the angle is within ~3e-8 of Pi/2;
-	// clamp so that the square root is not taken of a negative number.)
-	qr := 1 - math.Sqrt(math.Max(0, 1-pq2))
+	// through AB.  PQ^2 is computed from the dot product of P with the edge
+	// normal and OQ^2 (O the sphere origin) from their cross product, so that
+	// neither loses accuracy when the angle POQ approaches 0 or Pi/2. (Deriving
+	// OQ^2 as 1 - PQ^2 cancels completely for targets a quarter circle away
+	// from the edge and made the result too large by up to ~1e-8.)
+	n2 := n.Norm2()
+	pn := p.Dot(n)
+	pq2 := (pn * pn) / n2
+	oq2 := p.Cross(n).Norm2() / n2
+	qr := 1 - math.Sqrt(oq2)
 	return s1.ChordAngleFromSquaredLength(pq2 + qr*qr)
 }
 
@@ -607,25 +607,25 @@ func (c Cell) distanceInternal(targetXYZ Point, toInterior bool) s1.ChordAngle {
 	if dir00 < 0 {
 		inside = false // Target is to the left of the cell
 		if c.vEdgeIsClosest(target, false) {
-			return edgeDistance(-dir00, c.uv.X.Lo)
+			return edgeDistance(target, r3.Vector{X: 1, Y: 0, Z: -c.uv.X.Lo})
 		}
 	}
 	if dir01 > 0 {
 		inside = false // Target is to the right of the cell
 		if c.vEdgeIsClosest(target, true) {
-			return edgeDistance(dir01, c.uv.X.Hi)
+			return edgeDistance(target, r3.Vector{X: 1, Y: 0, Z: -c.uv.X.Hi})
 		}
 	}
 	if dir10 < 0 {
 		inside = false // Target is below the cell
 		if c.uEdgeIsClosest(target, false) {
-			return edgeDistance(-dir10, c.uv.Y.Lo)
+			return edgeDistance(target, r3.Vector{X: 0, Y: 1, Z: -c.uv.Y.Lo})
 		}
 	}
 	if dir11 > 0 {
 		inside = false // Target is above the cell
 		if c.uEdgeIsClosest(target, true) {
-			return edgeDistance(dir11, c.uv.Y.Hi)
+			return edgeDistance(target, r3.Vector{X: 0, Y: 1, Z: -c.uv.Y.Hi})
 		}
 	}
 	if inside {
@@ -636,10 +636,10 @@ func (c Cell) distanceInternal(targetXYZ Point, toInterior bool) s1.ChordAngle {
 		// arbitrary quadrilaterals after they are projected onto the sphere.
 		// Therefore the simplest approach is just to find the minimum distance to
 		// any of the four edges.
-		return minChordAngle(edgeDistance(-dir00, c.uv.X.Lo),
-			edgeDistance(dir01, c.uv.X.Hi),
-			edgeDistance(-dir10, c.uv.Y.Lo),
-			edgeDistance(dir11, c.uv.Y.Hi))
+		return minChordAngle(edgeDistance(target, r3.Vector{X: 1, Y: 0, Z: -c.uv.X.Lo}),
+			edgeDistance(target, r3.Vector{X: 1, Y: 0, Z: -c.uv.X.Hi}),
+			edgeDistance(target, r3.Vector{X: 0, Y: 1, Z: -c.uv.Y.Lo}),
+			edgeDistance(target, r3.Vector{X: 0, Y: 1, Z: -c.uv.Y.Hi}))
 	}
 
 	// Otherwise, the closest point is one of the four cell vertices. Note that
